@@ -1,6 +1,7 @@
 package main
 
 import (
+	"go/ast"
 	"fmt"
 	"os"
 	"go/constant"
@@ -623,6 +624,13 @@ func (e *exprCtx) expr(v ssa.Value) string {
 						delete(e.seen, fa)
 						return s
 					}
+				}
+			}
+			// an unexported package-level variable that only its package initialiser ever assigns, and assigns a
+			// constant, reads as that constant (`var sep = byte(45)` and `const sep = byte(45)` are the same thing)
+			if g, ok := x.X.(*ssa.Global); ok {
+				if k := initOnlyConst(g); k != nil {
+					return constStr(k)
 				}
 			}
 			if a, ok := x.X.(*ssa.Alloc); ok {
@@ -3369,4 +3377,68 @@ func sentinelNonNil(g *ssa.Global) bool {
 	}
 	sentinelCache[g] = ok && n == 1
 	return sentinelCache[g]
+}
+
+
+var initConstCache = map[*ssa.Global]*ssa.Const{}
+var initConstDone = map[*ssa.Global]bool{}
+
+// initOnlyConst: g is unexported, its address is used for nothing but loads and one store, that store is in the package
+// initialiser and stores a constant: the constant.
+func initOnlyConst(g *ssa.Global) *ssa.Const {
+	if initConstDone[g] {
+		return initConstCache[g]
+	}
+	initConstDone[g] = true
+	if g.Pkg == nil || ast.IsExported(g.Name()) {
+		return nil
+	}
+	if !strings.HasPrefix(g.Pkg.Pkg.Path(), modPath) {
+		return nil
+	}
+	var val *ssa.Const
+	n, ok := 0, true
+	scan := func(f *ssa.Function) {
+		for _, ff := range withAnon(f) {
+			for _, b := range ff.Blocks {
+				for _, i := range b.Instrs {
+					if st, isSt := i.(*ssa.Store); isSt && st.Addr == ssa.Value(g) {
+						n++
+						k, isC := st.Val.(*ssa.Const)
+						if !isC || ff.Name() != "init" || ff.Parent() != nil {
+							ok = false
+						}
+						val = k
+						continue
+					}
+					for _, op := range i.Operands(nil) {
+						if op != nil && *op == ssa.Value(g) {
+							if u, isU := i.(*ssa.UnOp); !(isU && u.Op == token.MUL) {
+								ok = false
+							}
+						}
+					}
+				}
+			}
+		}
+	}
+	for _, m := range g.Pkg.Members {
+		switch x := m.(type) {
+		case *ssa.Function:
+			scan(x)
+		case *ssa.Type:
+			for _, t := range []types.Type{x.Type(), types.NewPointer(x.Type())} {
+				ms := g.Pkg.Prog.MethodSets.MethodSet(t)
+				for k := 0; k < ms.Len(); k++ {
+					if f := g.Pkg.Prog.MethodValue(ms.At(k)); f != nil {
+						scan(f)
+					}
+				}
+			}
+		}
+	}
+	if ok && n == 1 && val != nil {
+		initConstCache[g] = val
+	}
+	return initConstCache[g]
 }
